@@ -22,7 +22,7 @@ import (
 	"golang.org/x/tools/go/ssa"
 )
 
-var sweepKinds = regexp.MustCompile(`\.safety\.(index|slice-bounds|slice-to-array|nil-map-write|slice-too-short-for-uint64)`)
+var sweepKinds = regexp.MustCompile(`\.safety\.(index|slice-bounds|slice-to-array|nil-map-write|slice-too-short-for-uint64|div-zero|make-len)`)
 
 func cmdSweep(args []string) int {
 	fs := flag.NewFlagSet("sweep", flag.ExitOnError)
@@ -109,8 +109,10 @@ func cmdSweep(args []string) int {
 		if ob.Model != "" && tryReplay(eng, *verif, "sweep", ob, &b) {
 			out := b.String()
 			msg := ""
-			if i := strings.Index(out, "VERIF-REPLAY-VIOLATED"); i >= 0 {
-				msg = strings.SplitN(out[i:], "\n", 2)[0]
+			if j := strings.Index(out, "--- replay output"); j >= 0 {
+				if i := strings.Index(out[j:], "VERIF-REPLAY-VIOLATED"); i >= 0 {
+					msg = strings.SplitN(out[j+i:], "\n", 2)[0]
+				}
 			}
 			inputs := ""
 			for _, ln := range strings.Split(out, "\n") {
